@@ -40,6 +40,9 @@ pub enum ListKind {
     OneOf(usize),
     /// a few instructions of the registry starting at an index (NOOP left out)
     Few(usize, usize),
+    /// names a user registered (`InstructionSet::add`): lower and mixed case, non-ASCII, no dot;
+    /// with `true` one registry name beside them
+    User(usize, bool),
 }
 
 #[derive(Serialize, Deserialize, Clone, Debug, PartialEq)]
@@ -98,7 +101,8 @@ pub fn generate(seed: u64, prop: &str, thorough: bool) -> EntropySc {
             _ => Case::Bool,
         }
     } else {
-        let list = match r.below(7) {
+        let list = match r.below(8) {
+            7 => ListKind::User(r.below(100_000) as usize, r.chance(1, 2)),
             0 => ListKind::Empty,
             1 => ListKind::One,
             2 => ListKind::OneOf(r.below(100_000) as usize),
@@ -204,6 +208,15 @@ fn instr_list(kind: &ListKind, full: &[String]) -> Vec<String> {
         ListKind::Full => full.to_vec(),
         ListKind::OneOf(k) => vec![no_noop[k % no_noop.len()].clone()],
         ListKind::Few(k, n) => (0..*n).map(|j| no_noop[(k + j * 37) % no_noop.len()].clone()).collect(),
+        ListKind::User(k, with_registry) => {
+            const USER: &[&str] = &["exec.bump", "My.Instr", "robot.TURN*left", "ÄPFEL.ADD", "x", "integer.+", "Code.Quote", "noop"];
+            let n = 1 + k % 3;
+            let mut v: Vec<String> = (0..n).map(|j| USER[(k / 3 + j * 3) % USER.len()].to_string()).collect();
+            if *with_registry {
+                v.push(no_noop[k % no_noop.len()].clone());
+            }
+            v
+        }
     }
 }
 
